@@ -304,6 +304,12 @@ func oneConn(w *mon.W, c *mon.Case, e *route.Engine, st *state, fx *fixed, lb *l
 			switch {
 			case limit == 0:
 				L = r.Int(8191, 8192, 8193, 100)
+			case r.Chance(3):
+				// above the limit: a streamed body is not rejected, it is streamed
+				L = limit + 1 + r.Intn(60)
+				if !chunked {
+					c.KeyTag = "streamed-cl-over-limit" // see known_findings.txt
+				}
 			case r.Bool():
 				L = limit
 			default:
@@ -358,6 +364,9 @@ func oneConn(w *mon.W, c *mon.Case, e *route.Engine, st *state, fx *fixed, lb *l
 		w.Count("connections_with_body_limit", 1)
 		if L == limit && limit > 0 {
 			w.Count("bodies_exactly_at_limit", 1)
+		}
+		if L > limit && limit > 0 {
+			w.Count("bodies_above_limit", 1)
 		}
 	}
 	if res.Hang {
